@@ -84,6 +84,14 @@ func (e *Enc) callCommon(fr *Frame, st *State, cc *ssa.CallCommon, fnv *Val, arg
 		}
 		return e.callStatic(fr, st, fn, binds, args, rt, hint, pos)
 	}
+	// call through a package-level variable of function type: a contract may be attached to the variable
+	if ld, ok := cc.Value.(*ssa.UnOp); ok && ld.Op == token.MUL {
+		if g, ok := ld.X.(*ssa.Global); ok && g.Pkg != nil && g.Pkg.Pkg != nil {
+			if c, ok := e.DB.Contracts["varcall:"+g.Pkg.Pkg.Path()+"."+g.Name()]; ok && c.callable() {
+				return e.applyContract(fr, st, c, append([]*Val{fnv}, args...), rt, hint, pos)
+			}
+		}
+	}
 	// dynamic function value: a contract may be attached to its named function type
 	dk := "dyncall:" + typeStr(cc.Value.Type())
 	if c, ok := e.DB.Contracts[dk]; ok && c.callable() {
